@@ -278,6 +278,31 @@ Theorem C14_push_is_file :
 Proof. exact pushed_is_file. Qed.
 Print Assumptions C14_push_is_file.
 
+(* ---------------- NGINX as a process: loaded files + NGINX Plus API state ---------------- *)
+(* State of an upstream = (servers in the file, servers NGINX uses).  xs lists, for the resources
+   that use the Service in the order Configurator.UpdateEndpoints* walks them: whether the NGINX Plus
+   API call for it succeeds, the servers now written for it, its state before. *)
+
+(* Outside a batch, whichever API calls fail (first, middle, last, several, none), afterwards NGINX
+   uses for EVERY resource the servers just written for it: the reload request is latched. *)
+Theorem C14_update_endpoints_live :
+  forall plus xs, map snd (update_endpoints plus true xs) = map (fun x => snd (fst x)) xs.
+Proof. exact update_endpoints_live. Qed.
+Print Assumptions C14_update_endpoints_live.
+
+(* Inside a batch of sync() (reloads disabled: no reload, no API call) the files are written and
+   the reload at the end of the batch makes NGINX use them -- OSS and Plus ... *)
+Theorem C14_batch_then_reload_live :
+  forall plus xs, map snd (end_of_batch true (update_endpoints plus false xs)) = map (fun x => snd (fst x)) xs.
+Proof. exact batch_then_reload_live. Qed.
+Print Assumptions C14_batch_then_reload_live.
+
+(* ... and that reload is necessary: without it NGINX keeps what it used before. *)
+Theorem C14_batch_without_reload_stale :
+  forall plus xs, map snd (end_of_batch false (update_endpoints plus false xs)) = map (fun x => snd (snd x)) xs.
+Proof. exact batch_without_reload_stale. Qed.
+Print Assumptions C14_batch_without_reload_stale.
+
 (* ---------------- what the code does NOT satisfy (each reproduced on the real code by the
    corpus cases of the harness) ---------------- *)
 
